@@ -21,6 +21,7 @@ import concurrent.futures as cf
 import contextlib
 import io
 import os
+import signal
 import warnings
 
 import numpy as np
@@ -59,7 +60,7 @@ ORDER_GAP = 1e-6
 def resolutions(tier):
     r = [(33, 33), (65, 65), (65, 97)]
     if tier == "thorough":
-        r += [(129, 129), (97, 65), (129, 257)]
+        r += [(129, 129), (97, 65), (129, 257), (64, 64), (100, 150), (257, 257)]
     else:
         r += [(129, 129)]
     return r
@@ -145,7 +146,16 @@ def _judge_fc(case, fam, ref, exp, op, xp, cell, dom, viol, st):
                 expected=c, returned=got)
             continue
         if len(near) > 1:
-            add("%s-point returned more than once" % c["kind"], expected=c, returned=[got[k] for k in near])
+            # diagnosis for the signature only: are all copies inside the ball that atol
+            # permits (|grad psi|/R < sqrt(atol)) and merely farther apart than the code's
+            # fixed de-duplication distance sqrt(1e-5) m ?
+            dups = [got[k] for k in near]
+            within = all(float(sum(np.square(ref.grad(g["R"], g["Z"]))) / g["R"] ** 2) < atol for g in dups)
+            apart = min(np.hypot(a["R"] - b["R"], a["Z"] - b["Z"]) for ia, a in enumerate(dups) for b in dups[ia + 1:])
+            qual = (" | copies each within atol, farther apart than the fixed 3.2 mm de-duplication radius"
+                    if within and apart >= np.sqrt(1e-5) else "")
+            add("%s-point returned more than once%s" % (c["kind"], qual), expected=c, returned=dups,
+                min_distance_between_copies=float(apart))
         g = got[near[0]]
         used.update(near)
         d = float(np.hypot(g["R"] - c["R"], g["Z"] - c["Z"]))
@@ -281,6 +291,18 @@ class _DecisionOnly(Exception):
     pass
 
 
+class _Timeout(Exception):
+    pass
+
+
+def _alarm(signum, frame):
+    raise _Timeout()
+
+
+# a normal case takes 0.1-0.3 s
+EQ_CASE_TIMEOUT_S = 30
+
+
 def _stop_here(*a, **k):
     raise _DecisionOnly()
 
@@ -296,7 +318,7 @@ def eq_task(task):
     s = np.linspace(0.0, 1.0, 33)
     psi1 = pax + s * (xr[0][2] - pax)
     viol, st = [], dict(cases=0, refused=0, single=0, double=0, none=0, legs=0, worst_strike=0.0,
-                        worst_xpos=0.0, sample=None, legs_skipped_xpoint_at_wall=0, decision_only=0)
+                        worst_xpos=0.0, sample=None, legs_skipped_xpoint_at_wall=0, decision_only=0, timeouts=0)
     for wname in task["walls"]:
         if wname.startswith("Wx") and len(xr) < 2:
             continue  # these walls cut next to the *second* X-point
@@ -319,12 +341,20 @@ def eq_task(task):
                     # interest (tracing legs that start outside the wall takes a minute and
                     # means nothing), so stop makeRegions at its first use of the kept X-points
                     eq.findLegs = _stop_here
+                # watchdog: a leg that never meets the wall would be traced for ever
+                signal.signal(signal.SIGALRM, _alarm)
+                signal.alarm(EQ_CASE_TIMEOUT_S)
                 try:
                     eq.makeRegions()
                 except _DecisionOnly:
                     exc = _DecisionOnly()
+                except _Timeout:
+                    exc = _Timeout()
+                    st["timeouts"] += 1
                 except Exception as e:  # refusals are explicit errors; the decision is still visible
                     exc = e
+                finally:
+                    signal.alarm(0)
             filtered = isinstance(eq.x_points, tuple)
             info = dict(case, expected_kept=[list(xr[k]) for k in keep], psinorm_xpoints=psin, inside_wall=inside,
                         error=None if exc is None else repr(exc)[:200])
@@ -498,14 +528,21 @@ def sp_task(task):
 
 
 # ============================ driver ========================================================
-def shifts_for(seed):
-    base = [(a, b) for a in SUB for b in SUB]
+def shifts_for(seed, tier="quick"):
+    """sub-cell shifts (in cells): quick {0,1/4,1/2,3/4}^2, thorough {0,1/8,...,7/8}^2; plus the
+    same lattice displaced by the seed's pre-declared phase (eighths in quick, sixteenths in
+    thorough)"""
+    sub = SUB if tier == "quick" else tuple(k / 8.0 for k in range(8))
     ph = SEED_PHASES[seed % 8]
-    return base + [(a + ph[0], b + ph[1]) for a in SUB for b in SUB]
+    if tier != "quick":
+        ph = (ph[0] / 2.0 if ph[0] else 0.0, ph[1] / 2.0 if ph[1] else 0.0)
+    base = [(a, b) for a in sub for b in sub]
+    return base + [(a + ph[0], b + ph[1]) for a in sub for b in sub]
 
 
 def tasks_for(tier, seed):
-    sh = shifts_for(seed)
+    sh = shifts_for(seed, tier)
+    sh_sp = shifts_for(seed)
     A = []
     for name in fams.names():
         for res in resolutions(tier):
@@ -526,7 +563,7 @@ def tasks_for(tier, seed):
             for res in sp_res:
                 if method == "dct" and res[0] > 65:
                     continue
-                C.append(dict(kind="sp", family=name, theta=theta, method=method, res=list(res), shifts=sh))
+                C.append(dict(kind="sp", family=name, theta=theta, method=method, res=list(res), shifts=sh_sp))
     return A, B, C
 
 
@@ -549,7 +586,7 @@ def run(ctx, only=None):
             results = list(ex.map(_work, tasks, chunksize=1))
     else:
         results = [_work(t) for t in tasks]
-    tot = dict(fc=dict(cases=0, points=0, order_skipped=0), eq=dict(cases=0, refused=0, single=0, double=0, none=0, legs=0, legs_skipped_xpoint_at_wall=0, decision_only=0),
+    tot = dict(fc=dict(cases=0, points=0, order_skipped=0), eq=dict(cases=0, refused=0, single=0, double=0, none=0, legs=0, legs_skipped_xpoint_at_wall=0, decision_only=0, timeouts=0),
                sp=dict(cases=0, refused=0))
     for r in results:
         kind = r["task"]["kind"]
@@ -584,7 +621,7 @@ def run(ctx, only=None):
     ctx.set("exhaustive", only is None)
     ctx.set("families", fams.names())
     ctx.set("resolutions", [list(r) for r in resolutions(ctx.tier)])
-    ctx.set("subcell_shifts", len(shifts_for(ctx.seed)))
+    ctx.set("subcell_shifts", len(shifts_for(ctx.seed, ctx.tier)))
     ctx.set("seed_phase", list(SEED_PHASES[ctx.seed % 8]))
     ctx.set("find_critical_calls", tot["fc"]["cases"])
     ctx.set("critical_points_judged", tot["fc"]["points"])
@@ -595,6 +632,7 @@ def run(ctx, only=None):
     ctx.set("eq_expected_no_xpoint", tot["eq"]["none"])
     ctx.set("eq_refused_after_decision", tot["eq"]["refused"])
     ctx.set("eq_decision_only_cases_wall_at_xpoint", tot["eq"]["decision_only"])
+    ctx.set("eq_timeouts", tot["eq"]["timeouts"])
     ctx.set("legs_judged", tot["eq"]["legs"])
     ctx.set("legs_skipped_xpoint_at_wall", tot["eq"]["legs_skipped_xpoint_at_wall"])
     ctx.set("saddle_calls", tot["sp"]["cases"])
